@@ -1,23 +1,143 @@
-"""Worker for C15 (two-dimensional arrays): executes a history of row reads, row copies, element and row
-writes on a pysnark Array of Arrays, and on nested Python lists with the documented semantics, and reports
-both final contents.  Protocol: `A2|id|<json>`."""
+"""Worker for C15 (two-dimensional arrays): executes a history of index-object creations, row reads, row copies,
+element reads, element and row writes (through the matrix, through previously obtained rows, through a plain-index
+inner row) and reads inside a not-taken / taken `if_then_else` branch on a pysnark Array of Arrays, and on nested
+Python lists with the documented object semantics, and reports both final contents.  Protocol: `A2|id|<json>`.
+
+Index specifications: ["p", i] plain int; ["s", i] a FRESH secret PrivVal(i); ["n", name] the index OBJECT created once by
+an earlier ["idx", name, secret?, i] operation and reused (loop-variable style).
+
+Reference semantics (rows are Python list OBJECTS):
+  * a row read at a plain index returns the inner row object itself (writes through it reach the matrix and vice versa);
+    at a secret index it returns a read-only snapshot; `Array(x)` copies;
+  * writes with a plain row index update the row object in place; a write whose ROW index is secret rebuilds every row of
+    the matrix (`if_then_else` per row), so previously held plain-index rows are detached from then on -- except a row that
+    is itself the value being stored (`if_then_else(c, x, x)` returns `x`);
+  * a secret index outside the array raises IndexError wherever it is used outside a not-taken branch, however often and
+    wherever the same index object was used before.
+"""
 import sys, os, json, traceback
 sys.path.insert(0, os.path.dirname(os.path.abspath(__file__)))
 import worker as W
 B = W.B
 from pysnark.runtime import PrivVal, LinComb
+from pysnark.boolean import PrivValBool, LinCombBool
 from pysnark.array import Array, ArrayRow
+from pysnark.branching import if_then_else
 
 
 def plain(x):
     if isinstance(x, Array): return [plain(y) for y in x.arr]
     if isinstance(x, list): return [plain(y) for y in x]
+    if isinstance(x, LinCombBool): return x.lc.value
     if isinstance(x, LinComb): return x.value
     return x
 
 
-def ix(secret, i):
-    return PrivVal(i) if secret else i
+def secrets(x):
+    if isinstance(x, Array):
+        for y in x.arr: yield from secrets(y)
+    elif isinstance(x, LinCombBool): yield x.lc
+    elif isinstance(x, LinComb): yield x
+
+
+def norm(op):
+    """histories written before index objects were introduced: (secret?, i) pairs"""
+    k = op[0]
+    sp = lambda s, i: ["s", i] if s else ["p", i]
+    if k == "row" and isinstance(op[2], bool): return ["row", op[1], sp(op[2], op[3])]
+    if k == "set1" and isinstance(op[2], bool): return ["set1", op[1], sp(op[2], op[3]), op[4]]
+    if k == "set2" and isinstance(op[1], bool): return ["set2", sp(op[1], op[2]), sp(op[3], op[4]), op[5]]
+    if k == "setrow" and isinstance(op[1], bool): return ["setrow", sp(op[1], op[2]), op[3]]
+    if k == "get2" and isinstance(op[2], bool): return ["get2", op[1], sp(op[2], op[3]), sp(op[4], op[5])]
+    return op
+
+
+class Real:
+    def __init__(self, h):
+        self.m = Array([Array([PrivVal(v) if h["secret"] else v for v in r]) for r in h["init"]])
+        self.vars = {}; self.idx = {}
+
+    def ix(self, spec):
+        if spec[0] == "p": return spec[1]
+        if spec[0] == "s": return PrivVal(spec[1])
+        return self.idx[spec[1]]
+
+    def do(self, op):
+        k = op[0]; m = self.m; v = self.vars; ix = self.ix
+        if k == "idx": self.idx[op[1]] = PrivVal(op[3]) if op[2] else op[3]
+        elif k == "row": v[op[1]] = m[ix(op[2])]
+        elif k == "copy": v[op[1]] = Array(v[op[2]])
+        elif k == "rowget": v[op[1]] = v[op[2]][ix(op[3])]
+        elif k == "get2": v[op[1]] = m[ix(op[2]), ix(op[3])]
+        elif k == "getrc": v[op[1]] = m[ix(op[2])][ix(op[3])]
+        elif k == "bget":
+            r, c = ix(op[3]), ix(op[4])
+            v[op[1]] = if_then_else(PrivValBool(op[2]), lambda: m[r, c], lambda: 0)
+        elif k == "set1": v[op[1]][ix(op[2])] = op[3]
+        elif k == "setchain": m[op[1]][ix(op[2])] = op[3]
+        elif k == "set2": m[ix(op[1]), ix(op[2])] = op[3]
+        elif k == "setrow": m[ix(op[1])] = v[op[2]]
+        else: raise ValueError("op " + k)
+
+
+class Ref:
+    """nested Python lists with the object semantics described in the module docstring"""
+
+    def __init__(self, h):
+        self.ref = [list(r) for r in h["init"]]
+        self.vars = {}; self.idx = {}
+
+    def ix(self, spec, n):
+        """returns (secret?, i); a secret index outside [0, n) raises"""
+        if spec[0] == "p": sec, i = False, spec[1]
+        elif spec[0] == "s": sec, i = True, spec[1]
+        else: sec, i = self.idx[spec[1]]
+        if sec and not 0 <= i < n: raise IndexError(i)
+        return sec, i
+
+    def rebuild(self, r, newrow, keep=None):
+        """a write at a secret row index: every row becomes a fresh object (except one identical to the stored value)"""
+        self.ref = [(newrow if k == r else row) if (keep is not None and row is keep) else list(newrow if k == r else row)
+                    for k, row in enumerate(self.ref)]
+
+    def do(self, op):
+        k = op[0]; ref = self.ref; v = self.vars
+        nr = len(ref)
+        if k == "idx": self.idx[op[1]] = (bool(op[2]), op[3])
+        elif k == "row":
+            sec, i = self.ix(op[2], nr)
+            v[op[1]] = ("rowview", list(ref[i])) if sec else ("alias", ref[i])
+        elif k == "copy":
+            v[op[1]] = ("array", list(v[op[2]][1]))
+        elif k == "rowget":
+            kind, lst = v[op[2]]
+            sec, i = self.ix(op[3], len(lst)); v[op[1]] = ("scalar", lst[i])
+        elif k in ("get2", "getrc"):
+            sr, r = self.ix(op[2], nr); sc, c = self.ix(op[3], len(ref[r])); v[op[1]] = ("scalar", ref[r][c])
+        elif k == "bget":
+            if op[2]:
+                sr, r = self.ix(op[3], nr); sc, c = self.ix(op[4], len(ref[r])); v[op[1]] = ("scalar", ref[r][c])
+            else:
+                v[op[1]] = ("scalar", 0)        # branch not taken: nothing inside it can raise
+        elif k == "set1":
+            kind, lst = v[op[1]]
+            if kind == "rowview": raise TypeError("read-only row")
+            sec, i = self.ix(op[2], len(lst)); lst[i] = op[3]
+        elif k == "setchain":
+            sec, c = self.ix(op[2], len(ref[op[1]])); ref[op[1]][c] = op[3]
+        elif k == "set2":
+            sr, r = self.ix(op[1], nr)
+            sc, c = self.ix(op[2], len(ref[r]))
+            if sr:
+                row = list(ref[r]); row[c] = op[3]; self.rebuild(r, row)
+            else:
+                ref[r][c] = op[3]
+        elif k == "setrow":
+            sr, r = self.ix(op[1], nr)
+            kind, lst = v[op[2]]
+            if sr: self.rebuild(r, lst, keep=lst)
+            else: ref[r] = lst
+        else: raise ValueError("op " + k)
 
 
 def main():
@@ -26,53 +146,27 @@ def main():
         try:
             h = json.loads(f[2])
             W.reset({"p": W.DEFAULT_P, "bl": 8})
-            rows, cols = h["rows"], h["cols"]
-            m = Array([Array([PrivVal(v) if h["secret"] else v for v in r]) for r in h["init"]])
-            ref = [list(r) for r in h["init"]]
-            vars_, rvars = {}, {}
-            status = "ok"; refstatus = "ok"
-            for op in h["ops"]:
+            p = W.DEFAULT_P
+            real = Real(h); ref = Ref(h)
+            status = "ok"; refstatus = "ok"; at = None
+            for n, op in enumerate(h["ops"]):
+                op = norm(op)
                 try:
-                    k = op[0]
-                    if k == "row":
-                        vars_[op[1]] = m[ix(op[2], op[3])]
-                    elif k == "copy":
-                        vars_[op[1]] = Array(vars_[op[2]])
-                    elif k == "set1":
-                        vars_[op[1]][ix(op[2], op[3])] = op[4]
-                    elif k == "set2":
-                        m[ix(op[1], op[2]), ix(op[3], op[4])] = op[5]
-                    elif k == "setrow":
-                        m[ix(op[1], op[2])] = vars_[op[3]]
-                    elif k == "get2":
-                        vars_[op[1]] = m[ix(op[2], op[3]), ix(op[4], op[5])]
+                    real.do(op)
                 except Exception as e:
                     status = type(e).__name__
-                # reference: nested lists; a row read with a plain index aliases the row, with a secret index copies it;
-                # Array(x) copies; a returned row (secret index) is read-only
                 try:
-                    k = op[0]
-                    if k == "row":
-                        rvars[op[1]] = ("rowview", list(ref[op[3]])) if op[2] else ("alias", ref[op[3]])
-                    elif k == "copy":
-                        rvars[op[1]] = ("array", list(rvars[op[2]][1]))
-                    elif k == "set1":
-                        kind, lst = rvars[op[1]]
-                        if kind == "rowview": raise TypeError("read-only row")
-                        lst[op[3]] = op[4]
-                    elif k == "set2":
-                        ref[op[2]][op[4]] = op[5]
-                    elif k == "setrow":
-                        ref[op[2]] = list(rvars[op[3]][1]) if op[1] else rvars[op[3]][1]
-                    elif k == "get2":
-                        rvars[op[1]] = ("scalar", ref[op[3]][op[5]])
+                    ref.do(op)
                 except Exception as e:
                     refstatus = type(e).__name__
                 if status != "ok" or refstatus != "ok":
+                    at = n
                     break
-            unsat = [i for i, (a, b, c) in enumerate(B.constraints) if (W.ev(a, W.DEFAULT_P) * W.ev(b, W.DEFAULT_P) - W.ev(c, W.DEFAULT_P)) % W.DEFAULT_P != 0]
-            out = {"status": status, "refstatus": refstatus, "m": plain(m), "ref": ref,
-                   "vars": {k: plain(v) for k, v in vars_.items()}, "rvars": {k: v[1] for k, v in rvars.items()}, "unsat": unsat[:3]}
+            unsat = [i for i, (a, b, c) in enumerate(B.constraints) if (W.ev(a, p) * W.ev(b, p) - W.ev(c, p)) % p != 0]
+            incoh = [k for k, x in list(real.vars.items()) + [("matrix", real.m)] if any((s.value - W.ev(s.lc, p)) % p for s in secrets(x))]
+            out = {"status": status, "refstatus": refstatus, "at": at, "m": plain(real.m), "ref": ref.ref,
+                   "vars": {k: plain(v) for k, v in real.vars.items()}, "rvars": {k: v[1] for k, v in ref.vars.items()},
+                   "unsat": unsat[:3], "incoh": incoh[:3]}
             res = f"{f[1]}|" + json.dumps(out)
         except BaseException as e:
             if isinstance(e, (KeyboardInterrupt, SystemExit)): raise
